@@ -601,10 +601,14 @@ class ForcingStepsCoverage(Spec):
     def body_slice(self, node):
         import ast
 
+        # structural, independent of local names: everything up to and including the LAST top-level `if` that refuses
+        last = None
         for k, st in enumerate(node.body):
-            if isinstance(st, ast.Assign) and isinstance(st.targets[0], ast.Name) and st.targets[0].id == "steps":
-                return node.body[:k], f"lines {node.body[0].lineno}-{st.lineno - 1} (scan + coverage check; the table-building loops below are covered by the bounded layout sweep)"
-        return None
+            if isinstance(st, ast.If) and any(isinstance(x, ast.Raise) for x in ast.walk(st)):
+                last = k
+        if last is None:
+            return None
+        return node.body[: last + 1], f"lines {node.body[0].lineno}-{node.body[last].end_lineno} (scan + coverage check; the table-building part below is verified as a whole function for fixed shapes)"
 
     def inputs(self, cx):
         tmin, tmax = z3.Ints("min_time max_time")
@@ -621,3 +625,26 @@ class ForcingStepsCoverage(Spec):
 
     def model(self, cx, a):
         return NotImplemented
+
+
+class ForcingInitNoFiles(ForcingInit):
+    """No file matches the forcing file name (pattern): start-up error, before anything is read."""
+
+    name = "Forcing.__init__[no forcing file matches]"
+
+    def __init__(self):
+        super().__init__()
+        self.callees = dict(self.callees)
+        self.callees["ladim.ROMS.find_files"] = lambda interp, args, kwargs: []
+
+    def requires(self, cx, a):
+        return []
+
+    def raises(self, cx, a):
+        return [(True, "SystemExit")]
+
+    def model(self, cx, a):
+        return NotImplemented
+
+    def ensures(self, cx, a, result):
+        return [("C20: no forcing file: the constructor must refuse (SystemExit)", False)]
